@@ -98,3 +98,20 @@ PROPS["C07"] = dict(
     check_names={201: "all full schedules that end Ok give the same canonical TIR",
                  202: "reduce(reduce x) = reduce x on every intermediate"},
 )
+
+PROPS["C09"] = dict(
+    level="proof",
+    runner="C09",
+    model_files=["Base.v", "Assets.v", "Select.v", "Tir.v", "PlutusData.v"],
+    proof_files=["PlutusData_proofs.v"],
+    check_files=["C09_check.v"],
+    theorems=["C09_decode_encode", "C09_int_any_size", "C09_bytes_any_length", "C09_constr_tags",
+              "C09_fields_in_declaration_order"],
+    partial=["that the implementation's bytes are the model encoder's bytes is byte-for-byte correspondence (exhaustive on constructor index 0..140 and byte lengths 0..100), not a theorem about pallas"],
+    trusted_base=TB_COMMON + ["pallas' CBOR writer is environment: the model re-implements heads, tags, definite arrays/maps, bignum tags and 64-byte chunking and is compared byte for byte",
+                              "the front-end leg trusts the generator's own denotation (constructor index = case position, fields in declaration order)"],
+    assumptions=["integers within +-2^1024, lengths below 2^64"],
+    check_names={101: "the specification's reader on the datum bytes recovers the denoted value",
+                 102: "the specification's reader on the redeemer bytes recovers the denoted value",
+                 103: "datum / redeemer conversion panicked"},
+)
